@@ -124,8 +124,11 @@ where
         |i| {
             let d = unrank(i, &rad);
             let a = g.aff(d[0]);
+            // the output buffers are NOT fresh: they hold the generator's table from an earlier precomputation
+            let dirty = g.aff((1..n).max_by_key(|&j| g.order[j]).unwrap());
             if d[1] == 0 {
                 let mut pre = vec![C::A::zero(); 3];
+                dirty.precomp_3(&mut pre);
                 a.precomp_3(&mut pre);
                 for (j, e) in pre.iter().enumerate() {
                     if g.abs_aff(e) != Some(g.mul_big(d[0], &alpha::pow2(64 * (j + 1)))) {
@@ -140,6 +143,7 @@ where
                 }
             } else {
                 let mut pre = vec![C::A::zero(); 256];
+                dirty.precomp_256(&mut pre);
                 a.precomp_256(&mut pre);
                 for (j, e) in pre.iter().enumerate() {
                     let mut m = BigUint::zero();
@@ -559,9 +563,13 @@ where
     // tables per point
     let tables: Vec<(Vec<C::Aff>, Vec<C::Aff>)> = crate::infra::par_map(rpts.len(), |i| {
         let a = C::aff_of(&rpts[i].p);
+        // buffers that already hold another point's table (the generator's)
+        let dirty = C::aff_of(&C::gen());
         let mut p3 = vec![C::Aff::zero(); 3];
+        dirty.precomp_3(&mut p3);
         a.precomp_3(&mut p3);
         let mut p256 = vec![C::Aff::zero(); 256];
+        dirty.precomp_256(&mut p256);
         a.precomp_256(&mut p256);
         (p3, p256)
     });
